@@ -31,6 +31,8 @@ func main() {
 	only := fs.String("only", "", "only verify functions whose name contains this")
 	verbose := fs.Bool("v", false, "verbose")
 	corpus := fs.String("corpus", "", "passG: corpus directory list (comma separated)")
+	thorough := fs.Bool("thorough", false, "thorough tier: role verification of every generation variant, random flow corpus")
+	seed := fs.Int64("seed", 0, "seed for the random part of the thorough corpus")
 	fs.Parse(os.Args[2:])
 	if *scratch == "" {
 		d, err := os.MkdirTemp(scratchBase(), "cffvc.")
@@ -51,7 +53,7 @@ func main() {
 	case "passK":
 		res, err = passK(*repo, cfg, *only)
 	case "passG":
-		res, err = passG(*repo, cfg, *only, *corpus, *scratch)
+		res, err = passG(*repo, cfg, *only, *corpus, *scratch, *thorough, *seed)
 	case "sites":
 		lr, err := vc.Load(*repo, []string{"verif"}, "go.uber.org/cff/...")
 		if err != nil {
